@@ -6,6 +6,26 @@ ROOT = "/verif"
 
 # id -> (engine, category, technique, level text, level note, design ref)
 CHECKS = {
+    "C02": ("segmc", "model_checking",
+            "exhaustive enumeration of read segmentations (all compositions for short streams, all <=2/3-cut segmentations, every single cut and boundary-neighbourhood pairs for streams around the 4 KiB buffer and its doublings) x Pending answers x {blocking, async}; differential oracle against the one-read baseline",
+            "For every byte stream of the pool (well-formed grammar streams, all truncations and single-byte corruptions of 8 two-response streams, long responses whose boundaries sit at 4096/8192/16384 +-1, binary payloads of 4000-8300 bytes) every segmentation of the stated sets is replayed on the real Connection and AsyncConnection by a scripted reader; the sequence of responses and the terminal outcome must equal the one-read baseline and agree between the flavours.",
+            "Trusted: nothing but the scripted reader (differential oracle). The greeting is delivered in its own read (a conforming server speaks only when asked).",
+            "DESIGN.md sections 3.2, 4 C02"),
+    "C03": ("segmc", "model_checking",
+            "bounded-exhaustive enumeration of abstract responses (small-scope grammar) encoded by an independent encoder, decoded by the real connections under exhaustive segmentation sets",
+            "Every abstract response of the bounded grammar (field-level exhaustive singles, list/error forms over representative frames, sequences of responses) is serialised by mpdref's encoder and must be decoded to exactly the abstract value, response by response, then a clean end; under all compositions (short) / <=2-3 cuts (medium) / single cuts + chunk sizes (long binary), both flavours.",
+            "Trusted: mpdref::wire encoder (cross-checked against the independent line-based reference decoder on every stream).",
+            "DESIGN.md sections 3.2, 4 C03"),
+    "C09": ("segmc", "model_checking",
+            "exhaustive enumeration of all byte strings over a 10-symbol protocol alphabet up to length 5/6, all single-byte corruptions of grammar streams and numeric edge cases, against a line-based reference decoder; panics caught, reads counted",
+            "Every enumerated stream is fed to connect and (after a valid greeting) to receive on both connection flavours under one-read, byte-at-a-time and single-cut segmentations inside catch_unwind with a read cap; delivered responses must equal the reference decoder's, a complete malformed line must give InvalidMessage, an early stop an error, and one more receive() after the terminal result must not panic.",
+            "Trusted: the reference decoder grammar (DESIGN.md 3.5).",
+            "DESIGN.md sections 3.2, 4 C09"),
+    "C10": ("segmc", "fault_enumeration",
+            "exhaustive enumeration of cut positions (crash points) of every grammar stream x segmentations of the surviving prefix x {blocking, async}",
+            "Every stream of the response grammar is truncated at every byte position and followed by EOF; the responses wholly before the cut must be delivered, then Ok(None) iff the cut is exactly on a response boundary recorded by the encoder, else Err(Io(UnexpectedEof)); every proper prefix of a valid greeting must give UnexpectedEof.",
+            "Trusted: response boundaries recorded by mpdref's encoder (cross-checked with the reference decoder).",
+            "DESIGN.md sections 3.2, 4 C10"),
     "C01": ("loopmc", "model_checking",
             "stateless model checking of the real tokio client loop under a controlled scheduler: deviation-bounded DFS over event orders by re-execution, oracle = simulated MPD server transcript",
             "All orders of Issue / Deliver (whole, split at line boundaries, 1 byte, len-1) / Notify / Tick / Cancel events within the deviation bound (micro scenarios: all orders) are executed on the real Client with a paused clock and a scripted transport; every completed request is compared with the reply the simulated server wrote for exactly that request line, list errors with their successful frames, per-caller order at the server, and cancellation leaving other callers' replies intact.",
